@@ -173,8 +173,10 @@ func (m *runtimeContextManager) PopContext() RuntimeContext {
 	// parent (time limit, stop request), and the context stack must be popped
 	// when that panic unwinds.
 	*m = *m.parent
-	m.RequireCPU(mCopy.usedResources.Cpu)
+	// Memory first: charging the CPU looks at the clock and can terminate the
+	// parent, and what the child used must be charged in full before that.
 	m.RequireMem(mCopy.usedResources.Memory)
+	m.RequireCPU(mCopy.usedResources.Cpu)
 	if m.trackTime {
 		m.updateTimeUsed()
 	}
@@ -198,11 +200,13 @@ func (m *runtimeContextManager) requireCPU(cpuAmount uint64) {
 	if atLimit(cpuUsed, m.hardLimits.Cpu) {
 		m.TerminateContext("CPU limit of %d exceeded", m.hardLimits.Cpu)
 	}
+	// The CPU is within the limit: record it before looking at the clock, so
+	// that it is not lost (to the parent contexts) if the time limit is reached.
+	m.usedResources.Cpu = cpuUsed
 	if m.trackTime && m.nextCpuThreshold <= cpuUsed {
 		m.nextCpuThreshold = cpuUsed + cpuThresholdIncrement
 		m.updateTimeUsed()
 	}
-	m.usedResources.Cpu = cpuUsed
 }
 
 func (m *runtimeContextManager) UnusedCPU() uint64 {
